@@ -183,6 +183,21 @@ Section Refresh.
       else rebuild bl al fs2 in
     {| r_block := bl; r_allow := al; r_files := fs2; r_engine := eng |}.
 
+  (** What the pass reports besides: the number of updated lists and "network
+      error" (every attempted list of some array failed); with a network error
+      the caller sees 0 updates. *)
+  Definition pass_report (b a force : bool) (due : N -> bool) (oc : N -> outcome) (st : rstate) : N * bool :=
+    let '(n1, e1, bl, fs1) :=
+      if b then refresh_array (r_block st) force due oc (r_files st)
+      else (0, false, r_block st, r_files st) in
+    let '(n2, e2, al, fs2) :=
+      if a then refresh_array (r_allow st) force due oc fs1
+      else (0, false, r_allow st, fs1) in
+    (n1 + n2, e1 || e2).
+
+  Definition pass_updated b a force due oc st : N := fst (pass_report b a force due oc st).
+  Definition pass_net_error b a force due oc st : bool := snd (pass_report b a force due oc st).
+
   (** ** [filterSetProperties], followed by what [handleFilteringSetURL] does
       with its result. *)
 
